@@ -78,6 +78,12 @@ class Report:
         lines = []
         new = known = 0
         os.makedirs(os.path.join(REPLAY_DIR, self.prop), exist_ok=True)
+        for old in os.listdir(os.path.join(REPLAY_DIR, self.prop)):      # replay files of earlier runs are stale
+            if old.endswith('.json'):
+                try:
+                    os.unlink(os.path.join(REPLAY_DIR, self.prop, old))
+                except OSError:
+                    pass
         for key in sorted(self.by_key):
             vs = self.by_key[key]
             if (self.prop, key) in self.known:
